@@ -111,6 +111,10 @@ func ruleC02R1(r *Run) {
 }
 
 func recvTypeName(fn *ssa.Function) string {
+	// a closure belongs to the method it is written in (critical sections wrapped in x.locked(func(){…}))
+	if fn != nil && fn.Parent() != nil {
+		fn = topFunc(fn)
+	}
 	if fn.Signature.Recv() == nil {
 		return ""
 	}
